@@ -262,3 +262,13 @@ func mirrorVictim(r *rand.Rand, t int, nonce uint64) spec {
 	}
 	return s
 }
+
+// numAliasSteps: differences a narrowing conversion of a uint64 counter (uint32, int32, uint16, int64 sign) would lose.
+var numAliasSteps = []uint64{1 << 32, 1 << 31, 1 << 16, 1 << 63, 3 << 32}
+
+func numStep(r *rand.Rand) uint64 {
+	if r.Intn(3) == 0 {
+		return numAliasSteps[r.Intn(len(numAliasSteps))]
+	}
+	return 1 + uint64(r.Intn(3))
+}
